@@ -2027,6 +2027,176 @@ Proof.
       * unfold gd_pos. rewrite map_length. exact H0.
 Qed.
 
+(* ---- dipoleMagnitude ---- *)
+Fixpoint zsum (f : R * R * V3 -> V3 -> R) (l : list (R * R * V3)) (D : list V3) : R :=
+  match l, D with a :: l', d :: D' => f a d + zsum f l' D' | _, _ => 0 end.
+Fixpoint dsum (aux : R) (l : list (R * R * V3)) (D : list V3) : V3 :=
+  match l, D with a :: l', d :: D' => v3add Rops (v3scale Rops (aq a - aux * am a) d) (dsum aux l' D') | _, _ => vzero Rops end.
+
+Lemma move_atoms_charge l t D : map aq (move_atoms l t D) = map aq l.
+Proof. revert D. induction l as [|a l IH]; intros D; destruct D as [|d D']; try reflexivity. cbn [move_atoms map]. rewrite IH. reflexivity. Qed.
+Lemma gd_charge_move g t D : gd_charge Rops (move_gd g t D) = gd_charge Rops g.
+Proof. unfold gd_charge. rewrite gd_atoms_move, move_atoms_charge. reflexivity. Qed.
+
+Lemma dipole_get (l : list (R * R * V3)) (c : V3) j :
+  vget j (vsum Rops (map (fun a => v3scale Rops (aq a) (v3sub Rops (ap a) c)) l)) =
+  tsum Rops (map (fun a => aq a * vget j (ap a)) l) - tsum Rops (map aq l) * vget j c.
+Proof.
+  induction l as [|a l IH]; cbn [map].
+  - unfold vsum. cbn [fold_right]. rewrite vget_zero, !tsum_nil. ring.
+  - rewrite vsum_cons, vget_add, IH, vget_scale, vget_sub, !tsum_cons. ring.
+Qed.
+Lemma qp_move (l : list (R * R * V3)) t D j : length D = length l ->
+  tsum Rops (map (fun a => aq a * vget j (ap a)) (move_atoms l t D)) =
+  tsum Rops (map (fun a => aq a * vget j (ap a)) l) + t * zsum (fun a d => aq a * vget j d) l D.
+Proof.
+  revert D. induction l as [|a l IH]; intros D Hl; destruct D as [|d D']; cbn [length] in Hl; try lia.
+  - cbn [move_atoms map zsum]. rewrite tsum_nil. ring.
+  - cbn [move_atoms map zsum]. rewrite !tsum_cons, IH by lia. unfold aq, ap. cbn [fst snd]. rewrite vget_add, vget_scale. ring.
+Qed.
+Lemma wsum_get (l : list (R * R * V3)) D j : length D = length l -> vget j (wsum l D) = zsum (fun a d => am a * vget j d) l D.
+Proof.
+  revert D. induction l as [|a l IH]; intros D Hl; destruct D as [|d D']; cbn [length] in Hl; try lia.
+  - cbn [wsum zsum]. apply vget_zero.
+  - cbn [wsum zsum]. rewrite vget_add, vget_scale, IH by lia. reflexivity.
+Qed.
+Lemma dsum_get aux (l : list (R * R * V3)) D j : length D = length l ->
+  vget j (dsum aux l D) = zsum (fun a d => aq a * vget j d) l D - aux * zsum (fun a d => am a * vget j d) l D.
+Proof.
+  revert D. induction l as [|a l IH]; intros D Hl; destruct D as [|d D']; cbn [length] in Hl; try lia.
+  - cbn [dsum zsum]. rewrite vget_zero. ring.
+  - cbn [dsum zsum]. rewrite vget_add, vget_scale, IH by lia. ring.
+Qed.
+
+Lemma dipole_move (g : GD) t D : gd_dummy g = None -> gd_mass Rops g <> 0 -> length D = length (gd_atoms g) ->
+  dipole Rops (move_gd g t D) (gd_com Rops (move_gd g t D)) =
+  v3add Rops (dipole Rops g (gd_com Rops g)) (v3scale Rops t (dsum (gd_charge Rops g / gd_mass Rops g) (gd_atoms g) D)).
+Proof.
+  intros Hd HM Hl. apply v3_ext. intros j.
+  assert (Hwf : gd_wf g) by (unfold gd_wf; rewrite Hd; exact HM).
+  rewrite (gd_com_move g t D Hwf). unfold dipole. rewrite gd_atoms_move.
+  rewrite vget_add, vget_scale, !dipole_get, move_atoms_charge, (qp_move _ t D j Hl).
+  rewrite vget_add, vget_scale. unfold comdir. rewrite Hd. rewrite vget_div, (wsum_get _ D j Hl), (dsum_get _ _ D j Hl).
+  unfold gd_charge. field. exact HM.
+Qed.
+
+Lemma dot_list_dsum aux (u : V3) (l : list (R * R * V3)) D : length D = length l ->
+  dot_list (map (fun a => v3scale Rops (aq a - aux * am a) u) l) D = v3dot Rops u (dsum aux l D).
+Proof.
+  revert D. induction l as [|a l IH]; intros D Hl; destruct D as [|d D']; cbn [length] in Hl; try lia.
+  - cbn [map dot_list dsum]. rewrite v3dot_get, !vget_zero. ring.
+  - cbn [map dot_list dsum]. rewrite IH by lia. rewrite !v3dot_get, !vget_add, !vget_scale. ring.
+Qed.
+
+Lemma dir_correct_dipole_magnitude (gs : list GD) : length gs = 1%nat ->
+  gd_dummy (gnth gs 0) = None -> gd_mass Rops (gnth gs 0) <> 0 ->
+  v3norm2 Rops (dipole Rops (gnth gs 0) (gd_com Rops (gnth gs 0))) <> 0 ->
+  dir_correct (k_dipole_magnitude Rops) gs.
+Proof.
+  intros Hl Hd HM Hne. pose proof (gds_1 gs Hl) as Egs.
+  split.
+  - unfold k_dipole_magnitude. cbv zeta. cbn [snd]. set (g0 := gnth gs 0) in *. rewrite Egs. cbn [shape_ok]. split; [|exact I].
+    rewrite map_length. reflexivity.
+  - intros Ds Hs. unfold k_dipole_magnitude. cbv zeta. cbn [fst snd]. rewrite dot_lists_1.
+    assert (H0 : length (nth 0 Ds []) = length (gd_atoms (gnth gs 0))).
+    { set (g0 := gnth gs 0) in *. rewrite Egs in Hs. destruct Ds as [|E0 Ds1]; cbn [shape_ok] in Hs; [contradiction|]. cbn [nth]. apply Hs. }
+    cbn [nsub nmul ndiv Rops]. rewrite (dot_list_dsum _ _ _ _ H0).
+    apply (is_derive_ext (fun t => vnorm Rops (v3add Rops (dipole Rops (gnth gs 0) (gd_com Rops (gnth gs 0)))
+              (v3scale Rops t (dsum (gd_charge Rops (gnth gs 0) / gd_mass Rops (gnth gs 0)) (gd_atoms (gnth gs 0)) (nth 0 Ds [])))))).
+    + intros t. rewrite gnth_move, (dipole_move _ t _ Hd HM H0). reflexivity.
+    + apply norm_dir. exact Hne.
+Qed.
+
+Lemma shape_ok_nth (Ds : list (list V3)) (gs : list GD) i : shape_ok Ds gs -> (i < length gs)%nat ->
+  length (nth i Ds []) = length (gd_atoms (gnth gs i)).
+Proof.
+  unfold gnth. revert Ds i. induction gs as [|g gs' IH]; intros Ds i Hs Hi; [cbn in Hi; lia|].
+  destruct Ds as [|D Ds']; cbn [shape_ok] in Hs; [contradiction|]. destruct Hs as [H0 Hs].
+  destruct i as [|i']; cbn [nth]; [exact H0|]. apply IH; [exact Hs|cbn [length] in Hi; lia].
+Qed.
+
+(* ---- dipoleAngle ---- *)
+Lemma dir_correct_dipole_angle pbc cell (gs : list GD) : gds_wf gs 3 -> plain pbc cell ->
+  gd_dummy (gnth gs 0) = None ->
+  let r21 := dipole Rops (gnth gs 0) (gd_com Rops (gnth gs 0)) in
+  let r23 := v3sub Rops (gd_com Rops (gnth gs 2)) (gd_com Rops (gnth gs 1)) in
+  v3norm2 Rops r21 <> 0 -> v3norm2 Rops r23 <> 0 -> -1 < cosang r21 r23 < 1 ->
+  dir_correct (k_dipole_angle Rops PI pbc cell) gs.
+Proof.
+  intros Hwf Hpl Hd r21 r23 Hn1 Hn3 Hc.
+  pose proof (gds_wf_nth gs 3 0 Hwf ltac:(lia)) as W0. pose proof (gds_wf_nth gs 3 1 Hwf ltac:(lia)) as W1.
+  pose proof (gds_wf_nth gs 3 2 Hwf ltac:(lia)) as W2.
+  assert (HM : gd_mass Rops (gnth gs 0) <> 0) by (unfold gd_wf in W0; rewrite Hd in W0; exact W0).
+  assert (Hlen : length gs = 3%nat) by (destruct Hwf; assumption).
+  split.
+  - unfold k_dipole_angle. cbv zeta. cbn [snd]. apply (shape_3 (gnth gs 0) (gnth gs 1) (gnth gs 2)); [apply gds_3; exact Hwf| | |];
+      [rewrite map_length; reflexivity|apply wgrad_length|apply wgrad_length].
+  - intros Ds Hs. pose proof (shape_ok_nth Ds gs 0 Hs ltac:(lia)) as H0.
+    unfold k_dipole_angle. cbv zeta. cbn [fst snd]. rewrite dot_lists_3, !wgrad_dot by assumption. rewrite !pdist_plain by exact Hpl.
+    fold r21 r23.
+    set (aux := gd_charge Rops (gnth gs 0) / gd_mass Rops (gnth gs 0)).
+    set (e1 := dsum aux (gd_atoms (gnth gs 0)) (nth 0 Ds [])).
+    set (c2 := gd_com Rops (gnth gs 1)) in *. set (c3 := gd_com Rops (gnth gs 2)) in *.
+    set (E2 := comdir (gnth gs 1) (nth 1 Ds [])). set (E3 := comdir (gnth gs 2) (nth 2 Ds [])).
+    set (R1 := fun t => v3add Rops r21 (v3scale Rops t e1)).
+    set (R3 := fun t => v3sub Rops (v3add Rops c3 (v3scale Rops t E3)) (v3add Rops c2 (v3scale Rops t E2))).
+    assert (HR1 : vderive R1 0 e1) by apply vderive_line.
+    assert (HR3 : vderive R3 0 (v3sub Rops E3 E2)) by (apply vderive_sub; apply vderive_line).
+    assert (E10 : R1 0 = r21) by (unfold R1; rewrite line_zero; reflexivity).
+    assert (E30 : R3 0 = r23) by (unfold R3, r23; rewrite !line_zero; reflexivity).
+    apply (is_derive_ext (fun t => rad2deg Rops PI * acos (cosang (R1 t) (R3 t)))).
+    + intros t. rewrite (gnth_move gs t Ds 0), (dipole_move _ t _ Hd HM H0).
+      rewrite !(com_curve gs 3 Ds _ t Hwf) by lia. rewrite !pdist_plain by exact Hpl. reflexivity.
+    + assert (Hs' : sqrt (1 - cosang r21 r23 * cosang r21 r23) <> 0).
+      { apply Rgt_not_eq, sqrt_lt_R0. destruct Hc as [Hc1 Hc2]. nra. }
+      assert (Hl1 : vnorm Rops r21 <> 0) by (unfold vnorm; cbn [nsqrt Rops]; apply Rgt_not_eq, sqrt_lt_R0, norm2_pos; exact Hn1).
+      assert (Hl3 : vnorm Rops r23 <> 0) by (unfold vnorm; cbn [nsqrt Rops]; apply Rgt_not_eq, sqrt_lt_R0, norm2_pos; exact Hn3).
+      evar_last.
+      * apply is_derive_scal. apply (is_derive_comp acos (fun t => cosang (R1 t) (R3 t))).
+        -- rewrite E10, E30. apply acos_derive. exact Hc.
+        -- apply (cosang_derive R1 R3 0 _ _ HR1 HR3); [rewrite E10; exact Hn1|rewrite E30; exact Hn3].
+      * rewrite E10, E30.
+        lazymatch goal with |- context [scal ?a ?b] => change (scal a b) with (Rmult a b) end.
+        pose proof (angle_algebra r21 r23 e1 (v3sub Rops E3 E2) (vnorm Rops r21) (vnorm Rops r23)
+                                  (sqrt (1 - cosang r21 r23 * cosang r21 r23)) (rad2deg Rops PI) Hl1 Hl3 Hs') as A.
+        cbv zeta in A. fold (cosang r21 r23) in A.
+        unfold mone, one. cbn [nneg n1 nmul ndiv nsub nadd nsqrt Rops]. fold (cosang r21 r23).
+        replace (- (1)) with (-1) by ring.
+        set (G1 := v3scale Rops (rad2deg Rops PI * (-1 / sqrt (1 - cosang r21 r23 * cosang r21 r23)) * (1 / vnorm Rops r21))
+                            (v3add Rops (vdiv Rops r23 (vnorm Rops r23)) (vdiv Rops (v3scale Rops (-1 * cosang r21 r23) r21) (vnorm Rops r21)))) in *.
+        set (G3 := v3scale Rops (rad2deg Rops PI * (-1 / sqrt (1 - cosang r21 r23 * cosang r21 r23)) * (1 / vnorm Rops r23))
+                            (v3add Rops (vdiv Rops r21 (vnorm Rops r21)) (vdiv Rops (v3scale Rops (-1 * cosang r21 r23) r23) (vnorm Rops r23)))) in *.
+        transitivity (v3dot Rops G1 e1 + v3dot Rops G3 (v3sub Rops E3 E2)).
+        -- rewrite <- A. ring.
+        -- rewrite (map_ext (fun a => v3scale Rops (aq a + -1 * am a * aux) G1) (fun a => v3scale Rops (aq a - aux * am a) G1))
+             by (intros a; f_equal; ring).
+           rewrite (dot_list_dsum aux G1 _ _ H0). fold e1.
+           rewrite !v3dot_sub_r, v3dot_scale_l. ring.
+Qed.
+
+(* ---- coordNum with group2CenterOnly (group1 atoms x centre of mass of group2) ---- *)
+Lemma dir_correct_coordnum_g2c r0 n m (gs : list GD) : length gs = 2%nat -> gd_wf (gnth gs 1) -> r0 <> 0 -> (1 <= n)%nat -> (1 <= m)%nat ->
+  pairs_ok r0 (gd_pos (gnth gs 0)) [gd_com Rops (gnth gs 1)] ->
+  dir_correct (k_coordnum Rops None r0 n m true) gs.
+Proof.
+  intros Hl W1 Hr Hn Hm Hok.
+  assert (Egs : gs = [gnth gs 0; gnth gs 1]) by (destruct gs as [|g0 [|g1 [|g2 r]]]; cbn [length] in Hl; try lia; reflexivity).
+  split.
+  - unfold k_coordnum. cbv zeta. cbn [snd]. apply (shape_2 (gnth gs 0) (gnth gs 1)); [exact Egs| |apply wgrad_length].
+    unfold pair_grad1, gd_pos. rewrite !map_length. reflexivity.
+  - intros Ds Hs. pose proof (shape_ok_nth Ds gs 0 Hs ltac:(lia)) as H0.
+    unfold k_coordnum. cbv zeta. cbn [fst snd]. rewrite dot_lists_2, wgrad_dot by exact W1.
+    set (c2 := gd_com Rops (gnth gs 1)) in *. set (E2 := comdir (gnth gs 1) (nth 1 Ds [])).
+    apply (is_derive_ext (fun t => pair_sum Rops (sw_func Rops None r0 n m) (move_pos (gd_pos (gnth gs 0)) t (nth 0 Ds [])) (move_pos [c2] t [E2]))).
+    + intros t. rewrite (gnth_move gs t Ds 0), gd_pos_move. rewrite (gnth_move gs t Ds 1), (gd_com_move _ t _ W1). reflexivity.
+    + evar_last.
+      * apply pair_dir.
+        -- intros p q Hp Hq. destruct (Hok p q Hp Hq) as [A B]. apply pair_correct_sw; assumption.
+        -- unfold gd_pos. rewrite map_length. exact H0.
+        -- reflexivity.
+      * f_equal. unfold pair_grad2. cbn [map dot_list]. rewrite Rplus_0_r. reflexivity.
+Qed.
+
 (* ------------------------------------------------------------------ more components as functions of the atomic coordinates *)
 Lemma grp_ok_3 (s : SYS) g1 g2 g3 : grp_ok s g1 -> grp_ok s g2 -> grp_ok s g3 ->
   List.Forall (wf_group s) [g1; g2; g3] /\ gds_wf (map (gdata_of Rops s) [g1; g2; g3]) 3 /\ List.Forall fit_on [g1; g2; g3].
@@ -2118,6 +2288,44 @@ Proof.
   - apply fit_ok_on. repeat constructor; assumption.
 Qed.
 
+Lemma cvc_grad_correct_coordNum_g2c co e r0 n m g1 g2 (s : SYS) :
+  grp_ok0 s g1 -> grp_ok s g2 -> r0 <> 0 -> (1 <= n)%nat -> (1 <= m)%nat ->
+  pairs_ok r0 (gd_pos (gdata_of Rops s g1)) [gd_com Rops (gdata_of Rops s g2)] ->
+  cvc_grad_correct None (mkCvc co e (KCoordNum r0 n m true) [g1; g2]) s.
+Proof.
+  intros (W1 & F1) (W2 & M2 & F2) Hr Hn Hm Hok.
+  apply group_layer; cbn [c_groups c_kind keval].
+  - repeat constructor; assumption.
+  - apply dir_correct_coordnum_g2c; try assumption; try reflexivity. cbn [map]. unfold gnth. cbn [nth]. apply gd_wf_of. exact M2.
+  - apply fit_ok_on. repeat constructor; assumption.
+Qed.
+
+Lemma cvc_grad_correct_dipoleMagnitude cell co e ids c fit (s : SYS) :
+  grp_ok s (GAtoms ids c fit true) ->
+  v3norm2 Rops (dipole Rops (gdata_of Rops s (GAtoms ids c fit true)) (gd_com Rops (gdata_of Rops s (GAtoms ids c fit true)))) <> 0 ->
+  cvc_grad_correct cell (mkCvc co e KDipoleMagnitude [GAtoms ids c fit true]) s.
+Proof.
+  intros (W & M & F) Hne.
+  apply group_layer; cbn [c_groups c_kind keval].
+  - constructor; [exact W|constructor].
+  - apply dir_correct_dipole_magnitude; cbn [map]; unfold gnth; cbn [nth]; try reflexivity; try assumption.
+    pose proof (gd_wf_of s _ M) as Wf. unfold gd_wf in Wf. cbn [gdata_of gd_dummy] in Wf. exact Wf.
+  - apply fit_ok_on. constructor; [exact F|constructor].
+Qed.
+
+Lemma cvc_grad_correct_dipoleAngle cell pbc co e ids c fit g2 g3 (s : SYS) :
+  grp_ok s (GAtoms ids c fit true) -> grp_ok s g2 -> grp_ok s g3 -> plain pbc cell ->
+  let g1 := GAtoms ids c fit true in
+  let r21 := dipole Rops (gdata_of Rops s g1) (gd_com Rops (gdata_of Rops s g1)) in
+  let r23 := v3sub Rops (gd_com Rops (gdata_of Rops s g3)) (gd_com Rops (gdata_of Rops s g2)) in
+  v3norm2 Rops r21 <> 0 -> v3norm2 Rops r23 <> 0 -> -1 < cosang r21 r23 < 1 ->
+  cvc_grad_correct cell (mkCvc co e (KDipoleAngle pbc) [GAtoms ids c fit true; g2; g3]) s.
+Proof.
+  intros H1 H2 H3 Hpl g1 r21 r23 Hn1 Hn3 Hc. destruct (grp_ok_3 s g1 g2 g3 H1 H2 H3) as (HW & HG & HF).
+  apply group_layer; cbn [c_groups c_kind keval]; [exact HW| |apply fit_ok_on; exact HF].
+  apply dir_correct_dipole_angle; [exact HG|exact Hpl|reflexivity| | |]; cbn [map]; unfold gnth; cbn [nth]; assumption.
+Qed.
+
 (* ------------------------------------------------------------------ closed form: guards instead of abstract hypotheses *)
 Definition com_of (s : SYS) (g : GRP) : V3 := gd_com Rops (gdata_of Rops s g).
 
@@ -2141,6 +2349,18 @@ Definition kind_guard (cell : option V3) (c : cvc) (s : SYS) : Prop :=
   | KCoordNum r0 n m false, [g1; g2] =>
     cell = None /\ grp_ok0 s g1 /\ grp_ok0 s g2 /\ r0 <> 0 /\ (1 <= n)%nat /\ (1 <= m)%nat /\
     pairs_ok r0 (gd_pos (gdata_of Rops s g1)) (gd_pos (gdata_of Rops s g2))          (* no pair coincident or exactly at the cut-off *)
+  | KCoordNum r0 n m true, [g1; g2] =>
+    cell = None /\ grp_ok0 s g1 /\ grp_ok s g2 /\ r0 <> 0 /\ (1 <= n)%nat /\ (1 <= m)%nat /\
+    pairs_ok r0 (gd_pos (gdata_of Rops s g1)) [com_of s g2]
+  | KDipoleMagnitude, [GAtoms ids c fit true] =>
+    grp_ok s (GAtoms ids c fit true) /\
+    v3norm2 Rops (dipole Rops (gdata_of Rops s (GAtoms ids c fit true)) (com_of s (GAtoms ids c fit true))) <> 0
+  | KDipoleAngle pbc, [GAtoms ids c fit true; g2; g3] =>
+    grp_ok s (GAtoms ids c fit true) /\ grp_ok s g2 /\ grp_ok s g3 /\ plain pbc cell /\
+    v3norm2 Rops (dipole Rops (gdata_of Rops s (GAtoms ids c fit true)) (com_of s (GAtoms ids c fit true))) <> 0 /\
+    com_of s g3 <> com_of s g2 /\
+    -1 < cosang (dipole Rops (gdata_of Rops s (GAtoms ids c fit true)) (com_of s (GAtoms ids c fit true)))
+                (v3sub Rops (com_of s g3) (com_of s g2)) < 1
   | KSelfCoordNum r0 n m, [g1] =>
     cell = None /\ grp_ok0 s g1 /\ r0 <> 0 /\ (1 <= n)%nat /\ (1 <= m)%nat /\
     self_ok (fun p q => l2of r0 (v3sub Rops q p) <> 0 /\ l2of r0 (v3sub Rops q p) <> 1) (gd_pos (gdata_of Rops s g1))
@@ -2179,10 +2399,15 @@ Proof.
     destruct Hk as (-> & Hi & Hne). apply cvc_grad_correct_inertiaZ; assumption.
   - destruct groups as [|g1 [|g2 [|g3 [|g4 r]]]]; try contradiction. destruct Hk as (H1 & H2 & H3 & Hp & Hn1 & Hn3 & Hc).
     apply cvc_grad_correct_angle; assumption.
-  - destruct g2center; try contradiction. destruct groups as [|g1 [|g2 [|g3 r]]]; try contradiction.
-    destruct Hk as (-> & H1 & H2 & Hr & Hn & Hm & Hok). apply cvc_grad_correct_coordNum; assumption.
+  - destruct g2center; (destruct groups as [|g1 [|g2 [|g3 r]]]; try contradiction);
+      destruct Hk as (-> & H1 & H2 & Hr & Hn & Hm & Hok); [apply cvc_grad_correct_coordNum_g2c|apply cvc_grad_correct_coordNum]; assumption.
   - destruct groups as [|g1 [|g2 r]]; try contradiction.
     destruct Hk as (-> & H1 & Hr & Hn & Hm & Hok). apply cvc_grad_correct_selfCoordNum; assumption.
+  - destruct groups as [|[p|ids c fit fg] [|g2 r]]; try contradiction; (destruct fg; try contradiction).
+    destruct Hk as (H1 & Hn). apply cvc_grad_correct_dipoleMagnitude; assumption.
+  - destruct groups as [|[p|ids c fit fg] [|g2 [|g3 [|g4 r]]]]; try contradiction; (destruct fg; try contradiction).
+    destruct Hk as (H1 & H2 & H3 & Hp & Hn1 & Hn3 & Hc).
+    apply cvc_grad_correct_dipoleAngle; try assumption. apply norm2_sub_ne. exact Hn3.
 Qed.
 
 Definition bias_guard (b : bias) (ws : list cvar) (x0 : list R) : Prop :=
